@@ -6,7 +6,7 @@ table(model, rel) -> DispatchTable with
 """
 import ast
 
-from .model import AnalysisError, Model, ClassInfo, walk_no_nested
+from .model import AnalysisError, Model, Module, ClassInfo, walk_no_nested
 
 
 class Cell(object):
@@ -111,6 +111,10 @@ class DispatchTable(object):
         for c in self.cells.values():
             if c.ctor is not None:
                 c.cls = self._class_of(c.ctor.func, c)
+        if sum(1 for c in self.cells.values() if c.cls is not None) < max(10, len(self.cells) // 2):
+            # the chain tests type names but the classes come from somewhere else (a table looked up before the chain)
+            self.cells, self.else_body, self.tail = {}, [], []
+            self._parse_semantic()
 
     # ------------------------------------------------------------------ semantic mode
     def _class_tables(self, cls):
@@ -167,6 +171,57 @@ class DispatchTable(object):
         return None
 
     _tables_cache = {}
+    _modtab_cache = {}
+
+    def _module_tables(self, mod):
+        """{name: display node} of the module-level tables of `mod`, with `X = dict(<other table>)` and `X.update({...})`
+        statements of the module body evaluated in order; Names are marked with the module that defines them."""
+        key = id(mod)
+        if key in DispatchTable._modtab_cache and DispatchTable._modtab_cache[key][0] is mod:
+            return DispatchTable._modtab_cache[key][1]
+        from . import sem
+        out = {}
+        DispatchTable._modtab_cache[key] = (mod, out)
+
+        def value_of(v):
+            if isinstance(v, (ast.Dict, ast.Tuple, ast.List, ast.Set)):
+                v = sem.clone(v)
+                for x in ast.walk(v):
+                    if isinstance(x, ast.Name):
+                        x._defmod = mod
+                return v
+            if isinstance(v, ast.Name) and v.id in out:
+                return sem.clone(out[v.id])
+            if isinstance(v, ast.Attribute):
+                owner = mod.resolve(v.value)
+                if isinstance(owner, Module):
+                    t = self._module_tables(owner)
+                    return sem.clone(t[v.attr]) if v.attr in t else None
+                if isinstance(owner, ClassInfo):
+                    t = self._class_tables(owner)
+                    return sem.clone(t[v.attr]) if v.attr in t else None
+            if isinstance(v, ast.Call) and isinstance(v.func, ast.Name) and v.func.id in ('dict', 'list', 'tuple') and len(v.args) == 1:
+                return value_of(v.args[0])
+            return None
+        for st in mod.tree.body:
+            if isinstance(st, ast.Assign) and len(st.targets) == 1 and isinstance(st.targets[0], ast.Name):
+                v = value_of(st.value)
+                if v is not None:
+                    out[st.targets[0].id] = v
+            elif isinstance(st, ast.Expr) and isinstance(st.value, ast.Call) and isinstance(st.value.func, ast.Attribute) and st.value.func.attr == 'update' \
+                    and isinstance(st.value.func.value, ast.Name) and st.value.func.value.id in out and st.value.args:
+                base, upd = out[st.value.func.value.id], value_of(st.value.args[0])
+                if isinstance(base, ast.Dict) and isinstance(upd, ast.Dict):
+                    keys = [k.value if isinstance(k, ast.Constant) else None for k in base.keys]
+                    nk, nv = list(base.keys), list(base.values)
+                    for k, v in zip(upd.keys, upd.values):
+                        if isinstance(k, ast.Constant) and k.value in keys:
+                            nv[keys.index(k.value)] = v
+                        else:
+                            nk.append(k)
+                            nv.append(v)
+                    out[st.value.func.value.id] = ast.Dict(keys=nk, values=nv)
+        return out
 
     def _parse_semantic(self):
         """No if-chain of the classic form: the dispatch is table driven and/or spread over helper methods.  For every ASN.1
@@ -180,6 +235,13 @@ class DispatchTable(object):
         # the concrete compiler class of this codec module (a subclass may only override the tables)
         comp = self.mod.classes.get('Compiler') or cls
         tables = self._class_tables(comp)
+        for k_, v_ in list(tables.items()):
+            if isinstance(v_, ast.Name):
+                dm_ = getattr(v_, '_defmod', None) or self.func._mod
+                tv_ = self._module_tables(dm_).get(v_.id)
+                if tv_ is not None:
+                    tables[k_] = sem.clone(tv_)
+        fmod = self.func._mod
         params = flow.param_names(self.func)
         td = params[2] if len(params) > 2 else 'type_descriptor'
 
@@ -205,12 +267,16 @@ class DispatchTable(object):
                             names.append(side.value)
                         elif isinstance(side, (ast.List, ast.Tuple, ast.Set)):
                             names.extend(x.value for x in side.elts if isinstance(x, ast.Constant) and isinstance(x.value, str))
-                        elif isinstance(side, ast.Attribute) and isinstance(side.value, ast.Name) and side.value.id == 'self' and isinstance(tables.get(side.attr), ast.Dict):
-                            names.extend(k.value for k in tables[side.attr].keys if isinstance(k, ast.Constant) and isinstance(k.value, str))
-                        elif isinstance(side, ast.Name):
-                            d = self._dict_table(side)
-                            if d is not None:
-                                names.extend(k.value for k in d[0].keys)
+                # every table of type names the method refers to: class attributes and module-level constants
+                tab_ = None
+                if isinstance(n, ast.Attribute) and isinstance(n.value, ast.Name) and n.value.id == 'self' and n.attr in tables:
+                    tab_ = tables[n.attr]
+                elif isinstance(n, ast.Name) and isinstance(n.ctx, ast.Load) and n.id in self._module_tables(f._mod):
+                    tab_ = self._module_tables(f._mod)[n.id]
+                if isinstance(tab_, ast.Dict):
+                    names.extend(k.value for k in tab_.keys if isinstance(k, ast.Constant) and isinstance(k.value, str))
+                elif isinstance(tab_, (ast.List, ast.Tuple, ast.Set)):
+                    names.extend(x.value for x in tab_.elts if isinstance(x, ast.Constant) and isinstance(x.value, str))
                 if isinstance(n, ast.Call) and isinstance(n.func, ast.Attribute) and isinstance(n.func.value, ast.Name) and n.func.value.id == 'self':
                     r = comp.find_method(n.func.attr)
                     if r and r[1].name.startswith('compile'):
@@ -222,21 +288,20 @@ class DispatchTable(object):
         self.var = "%s['type']" % td
         self.tail = [st for st in self.func.body if isinstance(st, ast.If) and isinstance(st.test, ast.Compare) and isinstance(st.test.ops[0], ast.In)
                      and isinstance(st.test.left, ast.Constant) and isinstance(st.test.comparators[0], ast.Name) and st.test.comparators[0].id == td]
-        # module-level dict tables of classes are folded as well
-        modtabs = {}
-        for nm, node in self.mod.consts.items():
-            if isinstance(node, ast.Dict) and node.keys and all(isinstance(k, ast.Constant) for k in node.keys):
-                v = sem.clone(node)
-                for x in ast.walk(v):
-                    if isinstance(x, ast.Name):
-                        x._defmod = self.mod
-                modtabs[nm] = v
+        # module-level tables are folded as well
+        modtabs = self._module_tables(fmod)
         for T in names:
             def rewrite(node, T=T):
                 if isinstance(node, ast.Subscript) and isinstance(node.value, ast.Name) and node.value.id == td and isinstance(node.slice, ast.Constant) and node.slice.value == 'type':
                     return ast.Constant(T)
-                if isinstance(node, ast.Name) and isinstance(node.ctx, ast.Load) and node.id in modtabs and not hasattr(node, '_defmod'):
-                    return sem.clone(modtabs[node.id])
+                if isinstance(node, ast.Name) and isinstance(node.ctx, ast.Load):
+                    dm = getattr(node, '_defmod', None)
+                    if (dm is None or dm is fmod) and node.id in modtabs:
+                        return sem.clone(modtabs[node.id])
+                    if dm is not None and dm is not fmod:
+                        tv = self._module_tables(dm).get(node.id)
+                        if tv is not None:
+                            return sem.clone(tv)
                 return None
             folder = sem._Fold(attr_resolver=lambda a: tables.get(a), rewrite=rewrite)
             try:
